@@ -22,8 +22,10 @@ Definition rclass tbl (c : class) : class :=
 Definition rmappings tbl (M : mappings) : mappings :=
   mkMappings (map (rs tbl) (ms_ns M)) (rdoc tbl (ms_doc M)) (map (rclass tbl) (ms_classes M)).
 
-(* The comparison is exact, order included: the property fixes the order of the result
-   (A's entries in A's order, then the entries only B has, in B's order). *)
+(* The comparison is exact, order included: the MODEL follows the code's order (A's entries in
+   A's order, then the entries only B has, in B's order).  The property itself promises no
+   iteration order; a difference in order alone is a model/implementation disagreement to look
+   at, not a property violation (the harness oracle compares up to order). *)
 Definition check_pair (A B : mappings) (r : res mappings) : bool :=
   wf2 A && wf2 B                          (* the compared domain is the proved domain *)
   && res_eqb mappings_eqb (merge A B) r.
